@@ -571,6 +571,27 @@ ObjectsOfState(s) == UNION {Range(g[2]) : g \in s.facts} \cup UNION {Range(g[2])
 JStateObjects(e, st) ==
   IF Has(e.out, "names") /\ Range(e.out.names) = ObjectsOfState(st[e.s].st) THEN Ok(st) ELSE Fail("StateObjects", st)
 
+\* State.typed_serialize: the state with every argument annotated by a type.  The
+\* annotation is the type under which the fact entered the state (the declared
+\* parameter type of the symbol, or that of the action parameter whose effect
+\* produced it), so every type between the object's own and the declared one is admitted.
+JTypedSerialize(e, st) ==
+  LET D == st[e.d].D
+      u == st[e.u].u
+      s == st[e.s].st
+      par == ParentOf(D.typeDecl)
+      decls == D.preds \o D.funcs
+      okItem(it) ==
+        LET want == ParamTypesOf(decls, it[1])
+        IN  /\ Len(it[2]) = Len(want)
+            /\ \A i \in DOMAIN it[2] :
+                  /\ SubType(par, TypeOfArg(D, u, it[2][i][1]), it[2][i][2])
+                  /\ SubType(par, it[2][i][2], want[i])
+  IN  IF ~Has(e.out, "st") THEN Fail("TypedSerialize:shape", st)
+      ELSE IF ~(StJsonClean(e.out.st) /\ ExactEq(s, StOfJson(e.out.st))) THEN Fail("TypedSerialize:content", st)
+      ELSE IF \A i \in DOMAIN e.out.types : okItem(e.out.types[i]) THEN Ok(st)
+      ELSE Fail("TypedSerialize:types", st)
+
 \* one equality condition (= (f args) value) per fluent of the state, values up to the print precision
 JFluentConditions(e, st) ==
   LET s == st[e.s].st
@@ -706,6 +727,7 @@ Judge(e, st) ==
     [] e.c = "Ground"       -> JGround(e, st)
     [] e.c = "StateObjects" -> JStateObjects(e, st)
     [] e.c = "FluentConditions" -> JFluentConditions(e, st)
+    [] e.c = "TypedSerialize" -> JTypedSerialize(e, st)
     [] e.c = "ShallowCopy"  -> JShallowCopy(e, st)
     [] e.c = "AddLiteral"   -> JAddLiteral(e, st)
     [] e.c = "RemoveLiteral" -> JRemoveLiteral(e, st)
